@@ -6,123 +6,32 @@ set_option linter.unusedSimpArgs false
 namespace WaVerif.C03.Rows
 open WaVerif WaVerif.Wasm WaVerif.C03 WaVerif.Gen.C03
 
-/-- `i32.add`: signed overflow is undefined in C -/
-theorem i32_add_partial : Partial2 CVal.i32 CVal.i32 CVal.i32 Guard.addOk (wBin .add) f_i32_add := by
+theorem i32_add_ok : Full2 CVal.i32 CVal.i32 CVal.i32 (wBin .add) f_i32_add := by
   unfold f_i32_add
   c03_tac
 
-theorem i32_add_full_false : ¬ Full2 CVal.i32 CVal.i32 CVal.i32 (wBin .add) f_i32_add := by
-  intro h
-  have h := h 0x7fffffff#32 0x1#32 []
-  revert h
-  decide
-
-theorem i32_add_sound : Sound2 CVal.i32 CVal.i32 CVal.i32 (wBin .add) f_i32_add := by
-  unfold f_i32_add
-  c03_sound
-
-example : Guard.addOk 0x3#32 0x2#32 := by decide
-
-/-- `i32.sub`: signed overflow is undefined in C -/
-theorem i32_sub_partial : Partial2 CVal.i32 CVal.i32 CVal.i32 Guard.subOk (wBin .sub) f_i32_sub := by
+theorem i32_sub_ok : Full2 CVal.i32 CVal.i32 CVal.i32 (wBin .sub) f_i32_sub := by
   unfold f_i32_sub
   c03_tac
 
-theorem i32_sub_full_false : ¬ Full2 CVal.i32 CVal.i32 CVal.i32 (wBin .sub) f_i32_sub := by
-  intro h
-  have h := h 0x80000000#32 0x1#32 []
-  revert h
-  decide
-
-theorem i32_sub_sound : Sound2 CVal.i32 CVal.i32 CVal.i32 (wBin .sub) f_i32_sub := by
-  unfold f_i32_sub
-  c03_sound
-
-example : Guard.subOk 0x3#32 0x2#32 := by decide
-
-/-- `i32.mul`: signed overflow is undefined in C -/
-theorem i32_mul_partial : Partial2 CVal.i32 CVal.i32 CVal.i32 Guard.mulOk (wBin .mul) f_i32_mul := by
+theorem i32_mul_ok : Full2 CVal.i32 CVal.i32 CVal.i32 (wBin .mul) f_i32_mul := by
   unfold f_i32_mul
   c03_tac
 
-theorem i32_mul_full_false : ¬ Full2 CVal.i32 CVal.i32 CVal.i32 (wBin .mul) f_i32_mul := by
-  intro h
-  have h := h 0x10000#32 0x10000#32 []
-  revert h
-  decide
-
-theorem i32_mul_sound : Sound2 CVal.i32 CVal.i32 CVal.i32 (wBin .mul) f_i32_mul := by
-  unfold f_i32_mul
-  c03_sound
-
-example : Guard.mulOk 0x3#32 0x2#32 := by decide
-
-/-- `i32.div_s`: no trap check: division by zero is undefined in C, not abort() -/
-theorem i32_div_s_partial : Partial2 CVal.i32 CVal.i32 CVal.i32 Guard.divS (wBin .div_s) f_i32_div_s := by
+theorem i32_div_s_ok : Full2 CVal.i32 CVal.i32 CVal.i32 (wBin .div_s) f_i32_div_s := by
   unfold f_i32_div_s
   c03_tac
 
-theorem i32_div_s_full_false : ¬ Full2 CVal.i32 CVal.i32 CVal.i32 (wBin .div_s) f_i32_div_s := by
-  intro h
-  have h := h 0x1#32 0x0#32 []
-  revert h
-  decide
-
-theorem i32_div_s_sound : Sound2 CVal.i32 CVal.i32 CVal.i32 (wBin .div_s) f_i32_div_s := by
-  unfold f_i32_div_s
-  c03_sound
-
-example : Guard.divS 0x3#32 0x2#32 := by decide
-
-/-- `i32.div_u`: no trap check: division by zero is undefined in C, not abort() -/
-theorem i32_div_u_partial : Partial2 CVal.i32 CVal.i32 CVal.i32 Guard.divU (wBin .div_u) f_i32_div_u := by
+theorem i32_div_u_ok : Full2 CVal.i32 CVal.i32 CVal.i32 (wBin .div_u) f_i32_div_u := by
   unfold f_i32_div_u
   c03_tac
 
-theorem i32_div_u_full_false : ¬ Full2 CVal.i32 CVal.i32 CVal.i32 (wBin .div_u) f_i32_div_u := by
-  intro h
-  have h := h 0x1#32 0x0#32 []
-  revert h
-  decide
-
-theorem i32_div_u_sound : Sound2 CVal.i32 CVal.i32 CVal.i32 (wBin .div_u) f_i32_div_u := by
-  unfold f_i32_div_u
-  c03_sound
-
-example : Guard.divU 0x3#32 0x2#32 := by decide
-
-/-- `i32.rem_s`: INT_MIN % -1 is undefined in C; WebAssembly yields 0 -/
-theorem i32_rem_s_partial : Partial2 CVal.i32 CVal.i32 CVal.i32 Guard.divS (wBin .rem_s) f_i32_rem_s := by
+theorem i32_rem_s_ok : Full2 CVal.i32 CVal.i32 CVal.i32 (wBin .rem_s) f_i32_rem_s := by
   unfold f_i32_rem_s
   c03_tac
 
-theorem i32_rem_s_full_false : ¬ Full2 CVal.i32 CVal.i32 CVal.i32 (wBin .rem_s) f_i32_rem_s := by
-  intro h
-  have h := h 0x80000000#32 0xffffffff#32 []
-  revert h
-  decide
-
-theorem i32_rem_s_sound : Sound2 CVal.i32 CVal.i32 CVal.i32 (wBin .rem_s) f_i32_rem_s := by
-  unfold f_i32_rem_s
-  c03_sound
-
-example : Guard.divS 0x3#32 0x2#32 := by decide
-
-/-- `i32.rem_u`: no trap check: division by zero is undefined in C, not abort() -/
-theorem i32_rem_u_partial : Partial2 CVal.i32 CVal.i32 CVal.i32 Guard.divU (wBin .rem_u) f_i32_rem_u := by
+theorem i32_rem_u_ok : Full2 CVal.i32 CVal.i32 CVal.i32 (wBin .rem_u) f_i32_rem_u := by
   unfold f_i32_rem_u
   c03_tac
-
-theorem i32_rem_u_full_false : ¬ Full2 CVal.i32 CVal.i32 CVal.i32 (wBin .rem_u) f_i32_rem_u := by
-  intro h
-  have h := h 0x1#32 0x0#32 []
-  revert h
-  decide
-
-theorem i32_rem_u_sound : Sound2 CVal.i32 CVal.i32 CVal.i32 (wBin .rem_u) f_i32_rem_u := by
-  unfold f_i32_rem_u
-  c03_sound
-
-example : Guard.divU 0x3#32 0x2#32 := by decide
 
 end WaVerif.C03.Rows
